@@ -90,3 +90,74 @@ def extra(ctx, rep):
                 else:
                     rep.proved("R-C47-percall", where, "created in the function that performs the estimation")
     rep.floor("WireResourceManager creation sites", m, 2)
+
+
+def collapse(ctx, rep):
+    """R-C47-collapse — a sequence of (operator, count) pairs that a resource operator builds with zip(...) (one entry per factor,
+    repeats allowed) is never turned into a last-wins mapping (`dict(pairs)`, `{op: n for op, n in pairs}`) whose items become the
+    gate counts: repeated factors would keep only the last count and the total would no longer be the sum over the parts."""
+    ix = ctx.index
+    rep.rule("R-C47-collapse", "in pennylane/estimator: a (operator, count) pair sequence built by zip(...) in a class's constructor is not "
+             "converted into a last-wins dict (dict(pairs) / identity dict comprehension) whose items are emitted as GateCount(op, count)")
+    n_cls = 0
+    for m in ix.modules.values():
+        if not m.relpath.startswith(EST) or "zip(" not in m.source:
+            continue
+        for cls in m.classes.values():
+            pair_attrs = set()
+            for fl in cls.methods.values():
+                for f in (fl if isinstance(fl, list) else [fl]):
+                    if f.name != "__init__":
+                        continue
+                    for st in ast.walk(f.node):
+                        if isinstance(st, ast.Assign) and len(st.targets) == 1 and isinstance(st.targets[0], ast.Attribute) \
+                                and isinstance(st.targets[0].value, ast.Name) and st.targets[0].value.id == "self":
+                            v = st.value
+                            if isinstance(v, ast.Call) and call_name(v) in ("tuple", "list") and v.args:
+                                v = v.args[0]
+                            if isinstance(v, ast.Call) and call_name(v) == "zip" and len(v.args) == 2:
+                                pair_attrs.add(st.targets[0].attr)
+            if not pair_attrs:
+                continue
+            n_cls += 1
+            for fl in cls.methods.values():
+                for f in (fl if isinstance(fl, list) else [fl]):
+                    if f.name == "__init__":
+                        continue
+                    params = {a.arg for a in f.node.args.posonlyargs + f.node.args.args + f.node.args.kwonlyargs}
+
+                    def is_pairs(e):
+                        return (isinstance(e, ast.Name) and e.id in pair_attrs and e.id in params) or (
+                            isinstance(e, ast.Attribute) and e.attr in pair_attrs and isinstance(e.value, ast.Name) and e.value.id == "self")
+                    maps = {}
+                    for st in ast.walk(f.node):
+                        if isinstance(st, ast.Assign) and len(st.targets) == 1 and isinstance(st.targets[0], ast.Name):
+                            v = st.value
+                            if isinstance(v, ast.Call) and call_name(v) == "dict" and len(v.args) == 1 and not v.keywords and is_pairs(v.args[0]):
+                                maps[st.targets[0].id] = st
+                            elif isinstance(v, ast.DictComp) and len(v.generators) == 1 and is_pairs(v.generators[0].iter) and not v.generators[0].ifs \
+                                    and isinstance(v.generators[0].target, ast.Tuple) and len(v.generators[0].target.elts) == 2 \
+                                    and norm(v.key) == norm(v.generators[0].target.elts[0]) and norm(v.value) == norm(v.generators[0].target.elts[1]):
+                                maps[st.targets[0].id] = st
+                    emitted = False
+                    for n in ast.walk(f.node):
+                        gens = n.generators if isinstance(n, (ast.ListComp, ast.GeneratorExp)) else ([n] if isinstance(n, ast.For) else [])
+                        for g in gens:
+                            it = g.iter
+                            if isinstance(it, ast.Call) and isinstance(it.func, ast.Attribute) and it.func.attr == "items" \
+                                    and isinstance(it.func.value, ast.Name) and it.func.value.id in maps:
+                                tg = g.target
+                                body = [n.elt] if not isinstance(n, ast.For) else n.body
+                                if isinstance(tg, ast.Tuple) and len(tg.elts) == 2 and any(
+                                        isinstance(c, ast.Call) and (call_name(c) or "").split(".")[-1] == "GateCount"
+                                        and [norm(a) for a in c.args[:2]] == [norm(tg.elts[0]), norm(tg.elts[1])]
+                                        for b in body for c in ast.walk(b)):
+                                    emitted = True
+                                    rep.refuted("R-C47-collapse", m.relpath, f.qualname, maps[it.func.value.id],
+                                                f"`{norm(maps[it.func.value.id])[:70]}` keeps one count per distinct operator (the last one) of a pair "
+                                                f"sequence that {cls.name}.__init__ builds with zip(...) — one entry per factor, repeats allowed — and its items "
+                                                "become the gate counts: the counts of repeated factors are lost, the total is no longer the sum over the parts",
+                                                line=maps[it.func.value.id].lineno)
+                    if not emitted and any(is_pairs(x) for x in ast.walk(f.node)):
+                        rep.proved("R-C47-collapse", f"{m.relpath}:{f.qualname}", "pair sequence is iterated entry by entry (no last-wins mapping feeds the gate counts)")
+    rep.floor("estimator classes holding a zip-built (operator, count) pair sequence", n_cls, 1)
